@@ -228,8 +228,9 @@ class InstructionsGraph:
             if apply_constraint is None:  # if no constraits
                 current_cycle = deepcopy(available_gates)
             else:  # check if constraits allow the parallelization
+                executed = [ind for cycle in cycles_list for ind in cycle]
                 self._add_dependency_among_commuting_gates(
-                    current_cycle, available_gates, apply_constraint
+                    current_cycle, available_gates, apply_constraint, executed
                 )
             # add this cycle to cycles_list
             cycles_list.append(current_cycle)
@@ -250,7 +251,7 @@ class InstructionsGraph:
         return cycles_list
 
     def _add_dependency_among_commuting_gates(
-        self, current_cycle, available_gates, apply_constraint
+        self, current_cycle, available_gates, apply_constraint, executed=()
     ):
         for ind2 in available_gates:
             approval = True
@@ -262,6 +263,13 @@ class InstructionsGraph:
                     self.nodes[ind2].predecessors.add(ind1)
             if approval:
                 current_cycle.append(ind2)
+                # The instruction also has to wait for every instruction
+                # of the previous cycles that it conflicts with
+                # (e.g. a commuting gate acting on the same qubit).
+                for ind1 in executed:
+                    if not apply_constraint(ind2, ind1, self.nodes):
+                        self.nodes[ind1].successors.add(ind2)
+                        self.nodes[ind2].predecessors.add(ind1)
 
     def compute_distance(self, cycles_list):
         """
